@@ -578,6 +578,15 @@ def _do(s, op, arg, real):
                 return [s.readable(), True]
             except ValueError:
                 return "ValueError"
+        if op == "dontwait_full":
+            # a non-blocking sendall into a send buffer that cannot take the whole message: a part is written, then EAGAIN
+            if real:
+                s.setsockopt(_rs.SOL_SOCKET, _rs.SO_SNDBUF, 4096)
+                s.sendall(b"x" * 8_000_000, _rs.MSG_DONTWAIT)
+            else:
+                s.send_free = 100
+                s.sendall(b"x" * 1000, _rs.MSG_DONTWAIT)
+            return "ok"
         if op == "shutdown":
             s.shutdown(_rs.SHUT_RDWR)
             return "ok"
@@ -623,6 +632,7 @@ SCENARIOS = {
     "idle": [("B", "sel"), ("A", "send", b"a"), ("B", "sel"), ("B", "recv", 1), ("B", "sel")],
     "both close": [("A", "close"), ("B", "close"), ("B", "send", b"x")],
     "open, shutdown": [("B", "shutdown"), ("B", "send", b"x")],
+    "dontwait on a full buffer": [("B", "dontwait_full"), ("A", "recv", 1), ("A", "recv", 50)],
     "fin, shutdown": [("A", "close"), ("B", "shutdown")],
     "rst, shutdown": [("A", "rst"), ("B", "shutdown")],
     "rst, recv, shutdown": [("A", "rst"), ("B", "recv", 4), ("B", "shutdown")],
